@@ -48,7 +48,7 @@ def snapshot(x):
     return ("py", repr(x))
 
 
-def check_call(call, seed, hist, bad, extra_tensor=False):
+def check_call(call, seed, hist, bad, extra_tensor=False, nonfinite=False):
     import einx
     try:
         args = calls.build_args(call, seed)
@@ -69,6 +69,13 @@ def check_call(call, seed, hist, bad, extra_tensor=False):
         return getattr(einx, call.op)(call.desc, *arglist, **kw)
     if extra_tensor:
         args = args + [np.array(args[-1], copy=True)]
+    if nonfinite:
+        args = [a.astype("float64") if a.dtype.kind == "f" else a for a in args]
+        for a in args:
+            if a.dtype.kind == "f" and a.size:
+                flat = a.reshape(-1); flat[0] = np.inf
+                if a.size > 1: flat[-1] = -np.inf
+                if a.size > 2: flat[a.size // 2] = np.nan
     for be in (None, "numpy.numpylike"):
         try:
             ref = run([np.array(a, copy=True) for a in args], backend=be); ref_ok = True
@@ -180,6 +187,38 @@ def adapters(seed, hist, bad):
                 bad.append(({"kind": "modified", "op": "adapt_" + name, "layout": kind}, f"adapted {name} function call modified its argument (layout {kind})", {"adapter": name}))
 
 
+def runtime_failures(seed, hist, bad):
+    """calls that fail while the compiled function runs: whatever happens, every argument keeps contents, shape, dtype and flags"""
+    import einx
+    x = np.arange(6.0).reshape(2, 3)
+
+    def boom(shape): raise RuntimeError("factory failed")
+    def badfn(t, axis): raise RuntimeError("user function failed")
+    cases = [
+        ("get_at out of range", lambda a, i: einx.get_at("[a] b, i -> i b", a, i), [x.copy(), np.array([0, 5, 1])]),
+        ("set_at out of range", lambda a, i, u: einx.set_at("[a] b, i, i b -> [a] b", a, i, u), [x.copy(), np.array([0, 7]), np.ones((2, 3))]),
+        ("add_at out of range", lambda a, i, u: einx.add_at("[a] b, i, i b -> [a] b", a, i, u), [x.copy(), np.array([9, 1]), np.ones((2, 3))]),
+        ("factory raises", lambda a, f: einx.add("a b, b", a, f), [x.copy(), boom]),
+        ("adapted function raises", lambda a: einx.numpy.adapt_numpylike_reduce(badfn)("a [b]", a), [x.copy()]),
+        ("wrong factory shape", lambda a, f: einx.add("a b, b", a, f), [x.copy(), lambda shape: np.ones((7,))]),
+        ("float coordinates", lambda a, i: einx.get_at("[a] b, i -> i b", a, i), [x.copy(), np.array([0.5, 1.5])]),
+    ]
+    for name, f, args in cases:
+        before = [snapshot(a) for a in args if isinstance(a, np.ndarray)]
+        hist["evaluations"] += 1
+        try:
+            f(*args); out = "returned"
+        except Exception as e:  # noqa
+            out = type(e).__name__
+        after = [snapshot(a) for a in args if isinstance(a, np.ndarray)]
+        for i, (b, a2) in enumerate(zip(before, after)):
+            target_ok = name.startswith(("set_at", "add_at")) and i == 0 and b[1:5] == a2[1:5]
+            if b != a2 and not target_ok:
+                what = "contents" if b[:7] == a2[:7] else "shape/strides/dtype/flags"
+                bad.append(({"kind": "modified", "op": name, "pos": str(i), "problem": "runtime failure"}, f"{name} ({out}): argument {i} was modified ({what}; writeable {b[4]} -> {a2[4]})", {"runtime": name}))
+                hist["MODIFIED"] += 1
+
+
 def work(chunk):
     seed, items = chunk
     hist = collections.Counter(); bad = []
@@ -187,6 +226,8 @@ def work(chunk):
         call = gen.Call.from_json(j)
         b = []
         check_call(call, seed, hist, b)
+        if call.op in calls.FLOAT_OPS:
+            check_call(call, seed, hist, b, nonfinite=True)       # inf / -inf / nan entries (numerically guarded code paths)
         bad.extend(b[:2])
     return dict(hist), bad[:30]
 
@@ -219,7 +260,7 @@ def run(ctx):
         hist.update(h)
         for sig, what, rp in bad: ctx.violation(sig, what, rp)
     bad = []
-    solve_api(ctx.seed, hist, bad); arity(ctx.seed, hist, bad); adapters(ctx.seed, hist, bad)
+    solve_api(ctx.seed, hist, bad); arity(ctx.seed, hist, bad); adapters(ctx.seed, hist, bad); runtime_failures(ctx.seed, hist, bad)
     for sig, what, rp in bad: ctx.violation(sig, what, rp)
     ctx.counters.update(hist)
     for j in items[:: max(1, len(items) // 6)][:6]:
@@ -239,6 +280,7 @@ def replay(d):
     if "call" in d: check_call(gen.Call.from_json(d["call"]), 0, hist, bad)
     elif "solve" in d: solve_api(0, hist, bad)
     elif "arity" in d: arity(0, hist, bad)
+    elif "runtime" in d: runtime_failures(0, hist, bad)
     else: adapters(0, hist, bad)
     for b in bad[:5]: print(b[1])
     return bool(bad)
